@@ -13,6 +13,7 @@ mod evmodel;
 mod refcal;
 mod shash;
 mod sclock;
+mod senv;
 mod c19;
 mod eventgen;
 mod fwd;
@@ -100,6 +101,10 @@ fn main() {
     if !shash::seam_works() {
         // without the seam the hash-key dimension of C10/C11 would silently explore nothing
         eprintln!("harness error: the getrandom seam is not in effect (std no longer draws RandomState keys through libc getrandom?)");
+        std::process::exit(2);
+    }
+    if !senv::seam_works() {
+        eprintln!("harness error: the environment seam is not in effect (std no longer reads variables through libc getenv?)");
         std::process::exit(2);
     }
     if !sclock::seam_works() {
